@@ -5,6 +5,7 @@ package main
 // (Vector), sizing function (lenVec).
 
 import (
+	"os"
 	_ "embed"
 	"encoding/json"
 	"fmt"
@@ -622,6 +623,9 @@ func (p *Pkg) EmitModel() *EmitModel {
 	}
 	em := p.syntacticEmitModel()
 	em.Fallback = err.Error()
+	if os.Getenv("CVSSCHECK_DEBUG") != "" {
+		println("DBG emit fallback", p.Key, err.Error())
+	}
 	if se, ok := err.(*semitErr); ok && se.at != nil {
 		em.Fallback += " at " + p.pos(se.at)
 	}
